@@ -12,9 +12,8 @@ Inductive otree := OLeaf (t : nat) | ONode (r : nat) (cs : list otree).
 
 (* one fed token: terminal number (0 = $END, fed with is_end=True), outcome code
    (0 shifted, 1 accepted, 2 UnexpectedToken, 3 AssertionError, 4 KeyError/IndexError, 5 no return),
-   state stack afterwards (top first), keys: choices() after a shift / e.expected after an error,
-   accepts() after a shift (None = not recorded) *)
-Definition ostep := (nat * nat * list nat * list symbol * option (list nat))%type.
+   state stack afterwards (top first), keys: choices() after a shift / e.expected after an error *)
+Definition ostep := (nat * nat * list nat * list symbol)%type.
 Definition orun := (list ostep * option otree)%type.
 
 Record DCase := mkDCase {
@@ -25,8 +24,7 @@ Record DCase := mkDCase {
   dc_qe : nat;
   dc_start : nat;                    (* the start non-terminal *)
   dc_items : list (nat * list item); (* closure item set of every state *)
-  dc_runs : list orun;
-  dc_acc0 : option (list nat) }.     (* accepts() of the fresh parser *)
+  dc_runs : list orun }.
 
 Section DC.
   Variable c : DCase.
@@ -68,27 +66,15 @@ Section DC.
 
   Definition fuel : nat := 200.
 
-  (* InteractiveParser.accepts() in configuration cfg: the terminals of the current row whose trial feed
-     (feed_token on a copy, is_end iff the terminal is $END = 0) neither raises UnexpectedToken nor anything else *)
-  Definition accepts_of (cfg : config nat) : list nat :=
-    filter (fun t => match feed nat (fun k => k) d_table fuel cfg t (Nat.eqb t 0) with
-                     | Shifted _ | Accepted _ => true
-                     | _ => false end)
-           (expected d_rows (top (sstack cfg))).
-  Definition nats_eq (l1 l2 : list nat) : bool :=
-    forallb (fun x => mem_nat x l2) l1 && forallb (fun x => mem_nat x l1) l2.
-  Definition acc_ok (cfg : config nat) (a : option (list nat)) : bool :=
-    match a with None => true | Some l => nats_eq (accepts_of cfg) l end.
-
   (* replay one run; returns false at the first disagreement *)
   Fixpoint run_ok (cfg : config nat) (steps : list ostep) (res : option otree) : bool :=
     match steps with
     | [] => match res with None => true | Some _ => false end
-    | (t, code, stk, keys, acc) :: rest =>
+    | (t, code, stk, keys) :: rest =>
       match feed nat (fun k => k) d_table fuel cfg t (Nat.eqb t 0) with
       | Shifted c' =>
           Nat.eqb code 0 && stack_eqb (sstack c') stk && syms_eq (choices d_rows (top (sstack c'))) keys &&
-          acc_ok c' acc && run_ok c' rest res
+          run_ok c' rest res
       | Accepted tr =>
           Nat.eqb code 1 && match rest with [] => true | _ => false end &&
           match res with Some o => tree_eqb tr (tree_of o) | None => false end
@@ -106,7 +92,6 @@ Section DC.
     forallb (fun r : orun => run_ok (init_config d_table) (fst r) (snd r)) (dc_runs c).
 End DC.
 
-Definition acc0_ok (c : DCase) : bool := acc_ok c (init_config (d_table c)) (dc_acc0 c).
-Definition check_dcase (c : DCase) : bool := cert_ok c && runs_ok c && acc0_ok c.
+Definition check_dcase (c : DCase) : bool := cert_ok c && runs_ok c.
 Definition diag_dcase (c : DCase) : list bool :=
-  cert_ok c :: acc0_ok c :: map (fun r : orun => run_ok c (init_config (d_table c)) (fst r) (snd r)) (dc_runs c).
+  cert_ok c :: map (fun r : orun => run_ok c (init_config (d_table c)) (fst r) (snd r)) (dc_runs c).
